@@ -23,6 +23,15 @@ fn drift_allowance(extent: f64) -> f64 {
     6e-8 * extent * extent
 }
 
+/// The same bound for one triangle: rows actually stepped (its height) instead
+/// of the extent, plus two ulps of the coordinates themselves (pixel centres
+/// k + ½ stop being exactly representable relative to the band long before
+/// 2^23). A triangle a few rows high at large coordinates has hardly any
+/// room to drift and is held to (almost) the strict band.
+fn drift_allowance_tri(extent: f64, height: f64) -> f64 {
+    (6e-8 * extent * (height + 2.0) + 2.4e-7 * extent).min(drift_allowance(extent))
+}
+
 pub struct Coverage {
     pub x0: i64,
     pub y0: i64,
@@ -86,6 +95,7 @@ pub fn judge(rep: &mut Report, t: &[[f32; 2]; 3], spans: &[Span], strict_sig: bo
     // coverage
     let a2 = geo::tri_area2(&v);
     let mut n_in = 0u64;
+    let mut drift_hits = 0u64;
     for gy in 0..h {
         for gx in 0..w {
             let p = ((gx as i64 + gx0) as f64 + 0.5, (gy as i64 + gy0) as f64 + 0.5);
@@ -104,7 +114,7 @@ pub fn judge(rep: &mut Report, t: &[[f32; 2]; 3], spans: &[Span], strict_sig: bo
                 let d = geo::tri_edge_dist(p, &v);
                 rep.worst("miscovered_centre_edge_distance_px(strict domain)", if extent <= 64.0 { d } else { 0.0 }, BAND, || format!("{t:?} centre {p:?}"));
                 if d >= BAND {
-                    let sig = if !strict_sig && extent > 128.0 && d <= drift_allowance(extent) {
+                    let sig = if !strict_sig && extent > 128.0 && d <= drift_allowance_tri(extent, maxy - miny) {
                         "raster.edge_drift_large_extent"
                     } else if inside {
                         "raster.inside_centre_missed"
@@ -122,6 +132,12 @@ pub fn judge(rep: &mut Report, t: &[[f32; 2]; 3], spans: &[Span], strict_sig: bo
                         ),
                         cj(t),
                     );
+                    if sig == "raster.edge_drift_large_extent" {
+                        // a drift-class miss must not hide a gross one
+                        // elsewhere in the same triangle: keep judging
+                        drift_hits += 1;
+                        continue;
+                    }
                     return None;
                 } else {
                     rep.count("centres_in_band_decided_either_way");
@@ -131,6 +147,9 @@ pub fn judge(rep: &mut Report, t: &[[f32; 2]; 3], spans: &[Span], strict_sig: bo
     }
     rep.add("pixel_centres_judged", (w * h) as u64);
     rep.add("pixel_centres_inside", n_in);
+    if drift_hits > 0 {
+        return None;
+    }
     Some(Coverage { x0: gx0, y0: gy0, w, h, cnt })
 }
 
@@ -391,8 +410,8 @@ generators: exhaustive half-pixel lattice (all ordered vertex triples), integer 
 vertices on pixel centres ±1ulp, flat, one-row halves, slivers, sub-pixel, zero-area; extents 4..64 (strict) and 128..2048 (large class); \
 non-trivial = non-zero area; distinct by hash of the vertex bits"
         .into();
-    rep.assumptions.push("coordinates are non-negative (Scanline.y/xs are usize; the clipper guarantees this upstream)".into());
-    rep.assumptions.push("f64 edge functions on exact f32 vertices are treated as exact (rounding ≤ 1e-12 px at these magnitudes, 9 orders below the 0.001 px band)".into());
+    rep.assumptions.push("the main streams use non-negative coordinates; triangles reaching into negative coordinates have their own stream, judged on the pixels unsigned coordinates can address (x, y ≥ 0)".into());
+    rep.assumptions.push("the drift signature of known finding F9 is granted per triangle: coordinates above 128 px and a mis-covered centre within 6e-8·extent·(height+2) + 2 ulp(extent) of an edge; f64 edge functions on exact f32 vertices are treated as exact (rounding ≤ 1e-12 px at these magnitudes, 9 orders below the 0.001 px band)".into());
 
     // pins
     {
@@ -410,6 +429,26 @@ non-trivial = non-zero area; distinct by hash of the vertex bits"
             }
         };
         rep.pin("F9.edge_drift_1024", r);
+    }
+
+    {
+        // F25: rows at negative y were all reported as row 0
+        let t = [[-3.0f32, -4.0], [5.0, -4.0], [1.0, 8.0]];
+        let r = match fill_unit(&t) {
+            Err(m) => Err(format!("panic: {m}")),
+            Ok(spans) => {
+                let ys: Vec<usize> = spans.iter().map(|s| s.y).collect();
+                let bad_len = spans.iter().find(|s| s.x1.saturating_sub(s.x0) != s.n_frags);
+                if ys.windows(2).any(|w| w[1] <= w[0]) {
+                    Err(format!("tri_fill((-3,-4),(5,-4),(1,8)) reports rows {ys:?}: not strictly increasing"))
+                } else if let Some(s) = bad_len {
+                    Err(format!("tri_fill((-3,-4),(5,-4),(1,8)): row {} has xs {}..{} but {} fragments", s.y, s.x0, s.x1, s.n_frags))
+                } else {
+                    Ok(())
+                }
+            }
+        };
+        rep.pin("F25.negative_rows_reported_as_row_0", r);
     }
 
     // Stream 0: exhaustive half-pixel lattice
@@ -463,9 +502,88 @@ non-trivial = non-zero area; distinct by hash of the vertex bits"
         }
         rep.case(h.get(), true);
         rep.count(&format!("large_extent.{ext}"));
+        // all six vertex orders: where they disagree outside the band (and
+        // outside the drift allowance) one of them is reported by judge()
+        one(rep, &t, true, false);
+    });
+    // Stream 5: small triangles far from the origin (a 4K frame, a tile of a
+    // huge canvas): a few rows to step, so hardly any drift is allowed
+    rep.run_stream(cfg, 5, "small_triangles_at_large_offsets", cfg.n(40_000, 2_000_000), |rng, _, rep| {
+        let off = rng.pick(&[2048.0f32, 3840.0, 4096.0, 16384.0, 65536.0]);
+        let small = gen_coords(rng, 8.0);
+        let (ox, oy) = (off * rng.pick(&[1.0f32, 1.0, 0.0, 0.37]), off * rng.pick(&[1.0f32, 0.0, 1.0, 0.61]));
+        let t: [[f32; 2]; 3] = std::array::from_fn(|i| [small[i][0] + ox.floor(), small[i][1] + oy.floor()]);
+        let mut h = Hasher::new();
+        for p in &t {
+            h.f32s(p);
+        }
+        rep.case(h.get(), true);
+        rep.count("large_offset.cases");
         one(rep, &t, false, false);
     });
+    rep.floor("large_offset.cases", 20_000);
 
+    // Stream 4: triangles reaching into negative coordinates ("partially
+    // off-grid"). Scanline.y and xs are unsigned, so pixels at negative
+    // coordinates cannot be reported; the pixels at x, y ≥ 0 must still be the
+    // right ones, each row once.
+    rep.run_stream(cfg, 4, "negative_offgrid", cfg.n(60_000, 3_000_000), |rng, _, rep| {
+        let mut t = gen_coords(rng, 24.0);
+        let (dx, dy) = (rng.pick(&[0.0f32, 8.0, 8.5, 30.0]), rng.pick(&[0.0f32, 8.0, 8.25, 30.0]));
+        for p in t.iter_mut() {
+            p[0] -= dx;
+            p[1] -= dy;
+        }
+        if !t.iter().any(|p| p[0] < 0.0 || p[1] < 0.0) {
+            return;
+        }
+        let mut h = Hasher::new();
+        for p in &t {
+            h.f32s(p);
+        }
+        rep.case(h.get(), true);
+        rep.count("negative_offgrid.cases");
+        let spans = match fill_unit(&t) {
+            Ok(s) => s,
+            Err(m) => {
+                rep.violation("raster.negative_coordinates_mishandled", format!("tri_fill panicked on a triangle reaching into negative coordinates: {m}"), cj(&t));
+                return;
+            }
+        };
+        let v: [P2; 3] = std::array::from_fn(|i| (t[i][0] as f64, t[i][1] as f64));
+        let mut last: Option<usize> = None;
+        let mut cover: std::collections::HashMap<(usize, usize), u32> = std::collections::HashMap::new();
+        for sp in &spans {
+            if last.is_some_and(|l| sp.y <= l) {
+                rep.violation("raster.negative_coordinates_mishandled", format!("scanline y={} arrived after y={} (rows at negative y are reported as row 0, again and again)", sp.y, last.unwrap()), cj(&t));
+                return;
+            }
+            last = Some(sp.y);
+            if sp.x1.saturating_sub(sp.x0) != sp.n_frags {
+                rep.violation("raster.negative_coordinates_mishandled", format!("scanline y={}: xs={}..{} but fragments() yielded {}", sp.y, sp.x0, sp.x1, sp.n_frags), cj(&t));
+                return;
+            }
+            for x in sp.x0..sp.x1.max(sp.x0) {
+                *cover.entry((x, sp.y)).or_default() += 1;
+            }
+        }
+        let a2 = geo::tri_area2(&v);
+        for y in 0..26usize {
+            for x in 0..26usize {
+                let c = (x as f64 + 0.5, y as f64 + 0.5);
+                let inside = a2 != 0.0 && geo::tri_inside(c, &v);
+                let got = cover.get(&(x, y)).copied().unwrap_or(0);
+                if (inside != (got == 1) || got > 1) && geo::tri_edge_dist(c, &v) >= BAND {
+                    rep.violation("raster.negative_coordinates_mishandled", format!("pixel ({x},{y}) (both coordinates ≥ 0) is {} the triangle but was reported {got} time(s)", if inside { "inside" } else { "outside" }), cj(&t));
+                    return;
+                }
+            }
+        }
+        rep.count("negative_offgrid.handled_correctly");
+    });
+
+    rep.floor("negative_offgrid.cases", 20_000);
+    rep.floor("negative_offgrid.handled_correctly", 20_000);
     rep.floor("pixel_centres_inside", 1_000_000);
     rep.floor("shape.flat_top_or_bottom", 10_000);
     rep.floor("shape.half_at_most_one_row_high", 10_000);
